@@ -120,6 +120,37 @@ def dump(body, cleanup=False):
     return "\n".join(out)
 
 
+def split_shared_switch_targets(d):
+    """`A | B => x` makes two values of one switch jump to the same block, so the CFG edge
+    (switch, x) stands for two outcomes.  Edge labels must mean one outcome each (a guard
+    `taken only when the value is A` would otherwise also hold for B): every value that shares
+    its target with another value (or with `otherwise`) gets an empty block of its own."""
+    n = 0
+    for b in d["bodies"]:
+        blocks = b["blocks"]
+        for blk in list(blocks):
+            if blk["cleanup"]:
+                continue
+            t = blk["term"]
+            if t["k"] != "switch":
+                continue
+            dests = [x for _, x in t["targets"]] + [t["otherwise"]]
+            shared = {x for x in dests if dests.count(x) > 1}
+            if not shared:
+                continue
+            new_targets = []
+            for v, x in t["targets"]:
+                if x in shared:
+                    i = len(blocks)
+                    blocks.append({"i": i, "cleanup": False, "stmts": [], "tramp": x, "term": {"k": "goto", "target": x, "span": t["span"]}})
+                    new_targets.append([v, i])
+                    n += 1
+                else:
+                    new_targets.append([v, x])
+            t["targets"] = new_targets
+    return n
+
+
 class Facts:
     def __init__(self, path):
         with open(path) as f:
@@ -130,6 +161,7 @@ class Facts:
         d, self.inlined = inline_new_functions(d)
         from .inline import desugar_combinators, thread_known_variants
         d, self.desugared = desugar_combinators(d)
+        self.split_edges = split_shared_switch_targets(d)
         self.raw = d
         self.meta = d["meta"]
         self.bodies = {}
